@@ -135,6 +135,7 @@ func svFeePool(app *App) *big.Int {
 
 // svFee is an arbitrary fee: any price (also below the minimum, negative) and any gas.
 func svFee(currency string) action.Fee {
+	// note: each call site shares the same two symbolic inputs
 	return action.Fee{Price: action.Amount{Currency: currency, Value: *balance.NewAmountFromBigInt(sv.BigInt("fee.price"))}, Gas: sv.Int64("fee.gas")}
 }
 
